@@ -109,6 +109,7 @@ type c31Model struct {
 	sawFail     bool
 	minSlackMs  float64
 	pauseClass  string // violation class of an attempt that starts inside a pause interval
+	armClass    string // overrides the single-arm/double-arm class of backoff violations (phase-specific)
 }
 
 func newC31Model(r *verifkit.R, phase string, ci int, cfg peer.ReconnectConfig, addrs []string) *c31Model {
@@ -204,6 +205,9 @@ func (m *c31Model) onStart(ev *c31Start) {
 	class := "single-arm"
 	if a.doubleArmed || (a.pending != nil && a.pending.n > 1) {
 		class = "double-arm"
+	}
+	if m.armClass != "" {
+		class = m.armClass
 	}
 	if m.inPause(ev.t) {
 		pc := m.pauseClass
@@ -767,6 +771,7 @@ func c31LongRunCase(r *verifkit.R, phase string, ci int, rng *verifkit.Rand) {
 	u := &c31Unit{c31Model: newC31Model(r, phase, ci, cfg, []string{"peer0"})}
 	u.rec = peer.NewReconnector(cfg, u.callback)
 	u.track = c31NewTrack(u.rec)
+	u.armClass = "long-failure-run"
 	a := u.addrs["peer0"]
 	runLen := rng.Range(90, 130)
 	beyond := 0
